@@ -129,6 +129,13 @@ def finding_class(req, impl, model, why):
     k = int(m.group(1))
     opname = "itnext" if m.group(2) == "itnextp" else m.group(2)      # next with a caller-supplied packet: the same call
     kind = "autocommit" if "autocommit" in why else ("changed" if "changed" in why else ("names-fail" if "get_names failed" in why else "other"))
+    # a call that is not an iterator call, made while an iterator's transaction is open on the CIF, after which that transaction is
+    # gone: SQLite's own whole-transaction rollback on SQLITE_NOMEM — the same root cause whatever the call (class in-iterator-tx)
+    steps = S.parse_answer(_plain(impl))
+    if steps and 0 < k < len(steps) and opname not in ("itnext", "itupd", "itrem"):
+        before, after = steps[k - 1]["ac"], steps[k]["ac"]
+        if any(b == "0" and a == "1" for b, a in zip(before, after)):
+            opname = "in-iterator-tx"
     if k in marked:
         return "fault/%s/cls%s/%s" % (opname, marked[k][0], kind)
     if k - 1 in marked:
